@@ -19,6 +19,38 @@ DECODE_ASSUMPTIONS = [
     "max_iterations < usize::MAX (RangeInclusive ghost iterator)",
 ]
 
+from names import NAMES
+from c15_names import PATTERNS
+
+I8_TYPES = [n for n in NAMES if "i8" in n and not n.startswith("HL")]
+
+
+def _h(name, **kw):
+    d = {"harness": name, "timeout": 900, "mem_gb": 6}
+    d.update(kw)
+    return d
+
+
+C05_QUICK = ([_h(f"c05::c05_quantize__{t}") for t in I8_TYPES] + [_h(f"c05::c05_clip__{t}") for t in I8_TYPES]
+             + [_h(f"c05::c05_var8__{t}", bound="degrees 1..=8 (the thorough tier covers 1..=200)") for t in I8_TYPES]
+             + [_h(f"c05::c05_layered2__{t}", bound="check degree 2, |variable LLR| <= 508") for t in I8_TYPES]
+             + [_h(f"c05::c05_layered3__{t}", bound="check degree 3, |variable LLR| <= 508") for t in I8_TYPES])
+C05_THOROUGH = ([h for h in C05_QUICK if "var8" not in h["harness"]]
+                + [_h(f"c05::c05_var200__{t}", timeout=3600, mem_gb=9) for t in I8_TYPES])
+C04_QUICK = ([_h(f"c04::c04_table__{t}") for t in I8_TYPES] + [_h(f"c04::c04_check2__{t}") for t in I8_TYPES]
+             + [_h(f"c04::c04_check3__{t}") for t in I8_TYPES])
+C04_THOROUGH = C04_QUICK + [_h(f"c04::c04_check4__{t}", bound="degree 4 (generic clauses only)", timeout=1800) for t in I8_TYPES]
+C18_QUICK = ([_h(f"c18::c18_print_parse__{n}", mem_gb=4) for n in NAMES] + [_h(f"c18::c18_clap__{n}", mem_gb=3) for n in NAMES]
+             + [_h(f"c18::c18_type__{n}", mem_gb=4) for n in NAMES] + [_h("c18::c18_reject_nonmembers_fromstr", timeout=1800, mem_gb=8)])
+C15_IL_QUICK = ["2x3", "3x2"]
+C15_IL_ALL = ["1x1", "1x3", "2x2", "2x3", "3x2", "3x3", "2x4", "4x2", "3x1", "5x1", "1x9", "9x1"]
+C15_QUICK = ([_h(f"c15::c15_interleave_{s}", timeout=1500, mem_gb=8, bound=f"shape columns x rows = {s}") for s in C15_IL_QUICK]
+             + [_h(f"c15::{n}", mem_gb=6, bound="one pattern, block size as named") for n, nd in PATTERNS if "_p4_" not in n or n.endswith("_b1")])
+C15_THOROUGH = ([_h(f"c15::c15_interleave_{s}", timeout=2400, mem_gb=8, bound=f"shape columns x rows = {s}") for s in C15_IL_ALL]
+                + [_h(f"c15::{n}", mem_gb=6, bound="one pattern, block size as named") for n, nd in PATTERNS])
+C14_ALL = [_h("c14::c14_bpsk_sign_structure"), _h("c14::c14_bpsk_roundtrip"), _h("c14::c14_psk8_constellation"),
+           _h("c14::c14_psk8_noiseless_hard_decisions", bound="sigma = 0.1; max* axiomatised (max <= max* <= max + ln 2)")]
+
 PROPS = {
     "C17": {
         "level": "proof",
@@ -102,5 +134,58 @@ PROPS = {
         "assumptions": DECODE_ASSUMPTIONS + [
             "functional claims of the trusted callees: every buffer a callee can write (syntactic write set, derived from the source on each run) is completely rewritten from the named inputs",
         ],
+    },
+    "C05": {
+        "level": "proof",
+        "title": "Variable updates are exact saturating sums; 8-bit arithmetic never overflows",
+        "verus": [],
+        "kani": {"quick": C05_QUICK, "thorough": C05_THOROUGH},
+        "assumptions": [
+            "Kani/CBMC/CaDiCaL; overflow, bounds and unwinding assertions on",
+            "8-bit arithmetic objects are built around the specified correction table through the guarded hook verif_with_table (the variable rule, the quantiser and clip do not read the table); that new() builds exactly that table is proved per type by c04_table__*",
+            "float arithmetics (variable rule on f32/f64) are not covered: the claim is about the sixteen 8-bit types",
+        ],
+    },
+    "C04": {
+        "level": "other",
+        "title": "Every arithmetic's check-node message is a faithful (approximate) box-plus",
+        "verus": [],
+        "kani": {"quick": C04_QUICK, "thorough": C04_THOROUGH},
+        "explanation_all": "Kani on the compiled real crate: for each of the sixteen 8-bit arithmetics, every message vector with values in [-127,127] at check degrees 2 and 3 (the domain the property calls exhaustive; degree 4 in the thorough tier): one message per neighbour, sign rule, magnitude bound with documented partial hard limiting, exact agreement with the min*-approximation / A-Min* recurrences over the correction table, and the table built by new() equals round(8 ln(1+e^(-t/8))) from libm values computed natively on this run. Float arithmetics and agreement with 2 atanh(prod tanh) are not decided.",
+        "assumptions": [
+            "Kani/CBMC/CaDiCaL",
+            "libm values of ln(1+exp(-t/8)) for t = 0..127 are taken from the platform libm (computed natively each run) because Kani cannot execute the foreign log1p/exp",
+            "rule harnesses build the arithmetic around the specified table through the guarded hook verif_with_table; new() == that table is a separate harness per type",
+            "float types (Phi, Tanh, Minstarapproxf, Aminstarf): not covered",
+        ],
+    },
+    "C18": {
+        "level": "proof",
+        "title": "Each decoder implementation name builds the arithmetic and schedule it names",
+        "verus": [],
+        "kani": {"quick": C18_QUICK, "thorough": C18_QUICK},
+        "assumptions": [
+            "Kani/CBMC/CaDiCaL; finite domain: the 36 names (complete) and every ASCII string of up to 48 bytes",
+            "concrete decoder type read through the guarded hook LdpcDecoder::verif_type_name (std::any::type_name)",
+            "a string containing a non-ASCII byte cannot equal an all-ASCII name (stated, not machine-checked)",
+            "clap's ValueEnum::from_str on non-member strings is not covered (CBMC ran out of 10 GB); the 36 positive cases are",
+            "libm-table stubs for exp/ln_1p while new() of the 8-bit arithmetics builds its table",
+        ],
+    },
+    "C15": {
+        "level": "other",
+        "title": "Interleaving and puncturing are exact, invertible re-orderings",
+        "verus": [],
+        "kani": {"quick": C15_QUICK, "thorough": C15_THOROUGH},
+        "explanation_all": "BOUNDED Kani harnesses on the real functions (ndarray code is outside Verus): interleave/deinterleave are the stated permutation and mutually inverse for the listed small shapes with symbolic contents and symbolic direction; puncture/depuncture keep exactly the marked blocks in order, restore zeros, report the rate and reject indivisible lengths, for every pattern of length <= 4 (one harness per pattern) and block sizes 1 and 2 with symbolic contents. Not a proof for all shapes.",
+        "assumptions": ["Kani/CBMC/CaDiCaL", "bounded: shapes and patterns as listed per harness", "element type u8"],
+    },
+    "C14": {
+        "level": "other",
+        "title": "Demodulator LLRs are the exact posterior log-ratios of the constellation",
+        "verus": [],
+        "kani": {"quick": C14_ALL, "thorough": C14_ALL},
+        "explanation_all": "PARTIAL. Decided by Kani on the real functions: the 8PSK constellation is the DVB-S2 Gray mapping with unit energy (all 8 triples, complete); BPSK maps 0 -> -1, 1 -> +1 and its LLR is zero at 0, odd in the sample and has the sign of minus the sample for every finite sample and sigma in [1e-3,1e3]; hard decisions on noiseless BPSK and 8PSK symbols return the bits (8PSK at sigma 0.1 under an axiomatised max*). NOT decided: that the soft values equal log P(0|r)/P(1|r) (bit-exact floating-point equivalence did not finish in CBMC; real analysis of max* is out of reach).",
+        "assumptions": ["Kani/CBMC/CaDiCaL", "exp/ln_1p axiomatised in the 8PSK hard-decision harness", "posterior exactness not decided"],
     },
 }
